@@ -322,6 +322,9 @@ def judge_killed(chk, c, r, rc, stats, model_cap, disagree):
 
 
 def run(chk, replay):
+    if replay and "hist_case" in json.load(open(replay)).get("case", {}):
+        import hist as _h
+        _h.replay_big_record(chk, "C11", "retry and restart read the parameters and the captured outputs back from the recorded run", json.load(open(replay))["case"]["hist_case"]); return
     chk.trusted = common.TRUSTED_COMMON + [
         "Go's regexp engine: the parameter regex is replaced by a hand-written recogniser (Params.matchAt), validated differentially "
         "against regexp on every run (malformed strings included)",
@@ -333,6 +336,9 @@ def run(chk, replay):
         "the capture pipe, os/exec and the kernel are not modelled: the pipe enters the model only through `stepEnds` (drained concurrently since 5e4d4e2)",
         "CR / LF inside start parameters are outside the documented syntax (F25, observation only)"]
     common.lean_obligations(chk, "BdModel/Props/C11.lean", TIE)
+    import hist as _hist
+    if not replay:
+        _hist.big_record_leg(chk, "C11", "retry and restart read the parameters and the captured outputs back from the recorded run")
     binp, out = common.build_harness("params")
     if not binp:
         chk.oblige("harness-build:params", False, out[-3000:]); return
